@@ -567,3 +567,5 @@ MUTANTS = [
 RENAME_FUNCS = [(PE, 'PerformanceOneHotEncoding.encode_event'), (PE, 'PerformanceOneHotEncoding.decode_event'), (PE, 'PerformanceOneHotEncoding.num_classes'),
                 (CE, 'TriadChordOneHotEncoding.encode_event'), (PC, 'NoteDensityPerformanceControlSignal.NoteDensityOneHotEncoding.encode_event'),
                 (DE, 'MultiDrumOneHotEncoding.encode_event'), (DE, 'MultiDrumOneHotEncoding.decode_event')]
+
+EXPLANATION += (' Location-independent additions: INV/chords-block-split (dividend of divmod / // / % by the octave is index - 1), TAB/performance-range-inclusion (a range is listed iff lo <= hi). Module-level numeric constants are folded in all normal forms (nf.GLOBAL_CONSTS).')
